@@ -43,6 +43,7 @@ class Def:
     method: Optional[str] = None        # for mut
     args: Tuple = ()                    # for mut: the call node
     via: Optional[str] = None           # for viewstore: name of the view variable
+    view_index: Optional[ast.AST] = None  # for viewstore: the subscript that created the view (None: reshape/view())
     stmt: Optional[ast.AST] = None
 
 
@@ -218,6 +219,13 @@ class FunctionCFG:
         if isinstance(target, ast.Subscript):
             k = var_key(target.value)
             if k is not None:
+                sl = target.slice
+                full = (isinstance(sl, ast.Slice) and sl.lower is None and sl.upper is None and sl.step is None) or \
+                    (isinstance(sl, ast.Constant) and sl.value is Ellipsis)
+                if full and kind == "assign":
+                    # X[:] = e / X[...] = e overwrite every element: a redefinition of X
+                    self._adddef(n, k, "assign", value=value, path=path)
+                    return
                 self._adddef(n, k, "store", value=value, index=target.slice, path=path)
                 self._view_store(n, k, target.slice, value, path)
             return
@@ -335,19 +343,32 @@ class FunctionCFG:
         pend = self.__dict__.get("_pending_views", [])
         added = False
         for (n, k, index, value, path) in pend:
-            base = self._view_base(n.id, k)
+            base, vindex = self._view_base(n.id, k)
             if base is not None and base != k:
-                self._adddef(n, base, "viewstore", value=value, index=index, path=path, via=k)
+                self._adddef(n, base, "viewstore", value=value, index=index, path=path, via=k, view_index=vindex)
                 added = True
         if added:
             self._rd_pass()
 
-    def _view_base(self, node_id: int, k: str) -> Optional[str]:
-        """If variable k is (on every reaching definition) a basic-index view of another variable, name it."""
+    def _view_base(self, node_id: int, k: str):
+        """If variable k is (on every reaching definition) a basic-index view of another variable, return
+        (base name, index expression or None)."""
+        r = self._view_base0(node_id, k)
+        return r if r is not None else (None, None)
+
+    def _view_base0(self, node_id: int, k: str):
         ds = self.reaching(node_id, k)
         if len(ds) != 1:
             return None
         d = ds[0]
+        hops = 0
+        while d.kind in ("store", "augstore") and hops < 8:
+            # earlier partial stores through the same view: go back to the definition of the view itself
+            hops += 1
+            ds = self.reaching(d.node, k, before_def=d)
+            if len(ds) != 1:
+                return None
+            d = ds[0]
         if d.kind != "assign" or d.path:
             return None
         v = d.value
@@ -357,12 +378,12 @@ class FunctionCFG:
             seen += 1
             if isinstance(v, ast.Subscript):
                 b = var_key(v.value)
-                return b
+                return (b, v.slice if seen == 1 else None) if b is not None else None
             if isinstance(v, ast.Call):
                 if isinstance(v.func, ast.Attribute) and v.func.attr in ("view", "reshape") and not v.keywords:
                     b = var_key(v.func.value)
                     if b is not None:
-                        return b
+                        return (b, None)
                     v = v.func.value
                     continue
                 fname = dotted(v.func) or ""
